@@ -6,6 +6,7 @@ use deno_ast::SourceTextInfoProvider;
 
 use deno_ast::swc::common::comments::Comment;
 use deno_ast::swc::common::comments::CommentKind;
+use deno_ast::swc::parser::token::Token;
 use deno_ast::view as ast_view;
 use deno_ast::RootNode;
 use once_cell::sync::Lazy;
@@ -123,7 +124,18 @@ pub fn parse_file_ignore_directives(
   let comments = program.comment_container();
   let mut initial_comments = match (has_shebang, first_item_range) {
     (false, _) => comments.leading_comments(program.start()),
-    (true, Some(range)) => comments.leading_comments(range.start),
+    (true, Some(range)) => {
+      // Decorators written in front of `export` are not part of the first
+      // item's range: take the first token instead.
+      let start = program
+        .token_container()
+        .tokens
+        .iter()
+        .find(|token| !matches!(token.token, Token::Shebang(_)))
+        .map(|token| token.start())
+        .unwrap_or(range.start);
+      comments.leading_comments(start)
+    }
     (true, None) => comments.trailing_comments(program.end()),
   };
   initial_comments
